@@ -410,8 +410,6 @@ impl<F: PathFetcher> MultiPathManager<F> {
     ///
     /// Returns a reference to the managed paths.
     fn ensure_managed_paths(&self, src: IsdAsn, dst: IsdAsn) -> PathSetHandle {
-        #[cfg(anapaya_scion_sdk_verif)]
-        let _verif_map = verif_sync::map_guard();
         let entry = match self.0.managed_paths.entry_sync((src, dst)) {
             scc::hash_index::Entry::Occupied(occupied) => {
                 tracing::trace!(%src, %dst, "Already managing paths for src-dst pair");
@@ -445,12 +443,14 @@ impl<F: PathFetcher> MultiPathManager<F> {
     /// Stops managing paths for the given src-dst pair.
     pub fn stop_managing_paths(&self, src: IsdAsn, dst: IsdAsn) {
         #[cfg(anapaya_scion_sdk_verif)]
-        let _verif_map = verif_sync::map_guard();
+        verif_sync::map_remove_begin(src, dst);
         if self.0.managed_paths.remove_sync(&(src, dst)) {
             #[cfg(anapaya_scion_sdk_verif)]
             verif_sync::map_remove(src, dst);
             tracing::info!(%src, %dst, "Stopped managing paths for src-dst pair");
         }
+        #[cfg(anapaya_scion_sdk_verif)]
+        verif_sync::map_remove_end(src, dst);
     }
 
     /// Reports a path issue to the issue manager.
